@@ -626,7 +626,7 @@ LIT_INTS = [0, 1, 2, 3, 60, 24, -1, 7]
 LIT_FLOATS = [0.1, 1e16, 0.5, 1.5, 0.3, 1e-3]
 
 
-def literal_runs(chk, hy, docs, per):
+def literal_runs(chk, hy, comp, docs, per):
     """operands written as LITERALS in the form (the other runs pass them as variables): the macro must still be
     the documented left fold, whatever the compiler does with constants.  Mixed int / float literals and
     variables, 2-5 operands"""
@@ -634,8 +634,16 @@ def literal_runs(chk, hy, docs, per):
     rng = chk.rng
     for name in ["+", "*", "-", "/", "//", "%", "**", "&", "|", "^", "<<", ">>"]:
         f = getattr(hy.pyops, hy.mangle(name))
+        fixed = {"*": [[0.1, 3, 3], [0.3, 3, 3, 7], [1e-3, 7, 3]], "+": [[1e16, 1, 1], [0.1, 1, 2, 3], [1e16, 1, 1, 1, 1]]}.get(name, [])
         for k in range(per):
             n = rng.choice([2, 3, 3, 4, 4, 5])
+            preset = fixed[k] if k < len(fixed) else None
+            if preset:
+                n = len(preset)
+            if comp.fn(name, n)[0] == "syntax":
+                n = 2                      # the operator does not take that many operands
+                if comp.fn(name, n)[0] == "syntax":
+                    continue
             vals, parts, env = [], [], {}
             ints_only = name in ("&", "|", "^", "<<", ">>")
             for i in range(n):
@@ -644,8 +652,10 @@ def literal_runs(chk, hy, docs, per):
                     v = rng.choice([0, 1, 2, 0.5])
                 if name in ("<<", ">>") and i > 0:
                     v = rng.choice([0, 1, 2, 3])
+                if preset:
+                    v = preset[i]
                 vals.append(v)
-                if rng.random() < 0.25:
+                if not preset and rng.random() < 0.25:
                     env["lit_v%d" % i] = v
                     parts.append("lit-v%d" % i)
                 else:
@@ -911,7 +921,7 @@ def run(chk):
             rt = runtime_doc(hy, name)
             docs[name] = rt or {"nullary": None, "unary": "not x", "binary": None, "nary": None, "agg": None}
     real_runs(chk, hy, comp, docs, max_n, 400 if thorough else 36)
-    literal_runs(chk, hy, docs, 1500 if thorough else 150)
+    literal_runs(chk, hy, comp, docs, 1500 if thorough else 150)
     aug_runs(chk, hy, comp, docs, max_n, 120 if thorough else 14)
     shadow_runs(chk, hy, comp, 6 if thorough else 5, 12 if thorough else 3)
     evaluation_runs(chk, hy, comp, max_n)
